@@ -150,13 +150,14 @@ TSAN_ENV = {"TSAN_OPTIONS": "halt_on_error=1:exitcode=66:second_deadlock_stack=1
 
 plan("C11", "exploration",
      [worker("native", ["kernels", "C11"]),
+      explorer("C11") | {"name": "end-to-end"},
       worker("asan", ["kernels", "C11", "--reps", "2"], build="asan", env=ASAN_ENV, sanitizer="asan"),
       worker("miri", ["kernels", "C11", "--reps", "1", "--max-len", "70", "--offsets", "4", "--classes", "34"], build="miri", tiers=("thorough",), sanitizer="miri", watchdog=(3600, 3600))],
      ["value ranges are chosen so that no f32 intermediate overflows (|x| <= 1e17) and underflow is covered by an absolute term; NaN/inf inputs are C20's",
       "NEON code paths cannot run on this x86-64 host",
       "a clean sanitizer run is not memory safety: red zones miss non-adjacent over-reads"],
      "distances equal the metric's definition",
-     "All lengths 1..=300 x all 16 byte offsets x 10 value classes x 4 metrics through the public Distance functions on Leafs borrowed from exact-size heap buffers, every kernel (plain/SSE/AVX) directly through the hook, dispatch rule, symmetry, self-distance, range; thorough adds an ASan leg (over-read = report) and a Miri leg on the pure-Rust kernels.",
+     "All lengths 1..=300 x all 16 byte offsets x 10 value classes x 4 metrics through the public Distance functions on Leafs borrowed from exact-size heap buffers, every kernel (plain/SSE/AVX) directly through the hook, dispatch rule, symmetry, self-distance, range; an end-to-end explorer leg compares the distances reported by searches on indexes written through add/append/overwrite with the definition; thorough adds an ASan leg (over-read = report) and a Miri leg on the pure-Rust kernels.",
      "f64 oracle with proven rounding bounds; host CPU features decide which kernels run",
      "runtime monitoring: differential f64 oracle over kernel/Distance outputs + ASan/Miri on the SIMD kernels",
      "DESIGN.md §3 C11, §4")
